@@ -127,6 +127,9 @@ def cmd_run(i, props):
         lk = open(os.path.join(VERIF, "build", "lock-" + p), "w"); fcntl.flock(lk, fcntl.LOCK_EX)
         evf = os.path.join(VERIF, "evidence", p + ".json")
         evb = open(evf).read() if os.path.exists(evf) else None
+        rdir = os.path.join(VERIF, "replays", p); keep = rdir + ".keep-%d" % os.getpid()
+        if os.path.isdir(rdir):      # replay files of a run against /repo itself are not ours to delete
+            os.rename(rdir, keep)
         env = dict(os.environ, VERIF_REPO=sc, VERIF_JOBS=os.environ.get("VERIF_JOBS", "12"), VF_LOCK_HELD="1")
         e = subprocess.run([sys.executable, os.path.join(VERIF, "check.py"), p, "--tier", os.environ.get("SEEDED_TIER", "quick")], env=env,
                            stdout=subprocess.PIPE, stderr=subprocess.PIPE, text=True)
@@ -140,6 +143,8 @@ def cmd_run(i, props):
             open(evf, "w").write(evb)
         # replays produced against the changed tree are not kept
         shutil.rmtree(os.path.join(VERIF, "replays", p), ignore_errors=True)
+        if os.path.isdir(keep):
+            os.rename(keep, rdir)
         lk.close()
     shutil.rmtree(sc, ignore_errors=True)
     save(i, m)
